@@ -14,7 +14,7 @@ ASSUME = ["configurations: object images from Functor!ObMenu (types of length 0.
           "for swaps the statement only asks for a swap diagram of the image types (law 'swap' compares with the "
           "library's own Diagram.swap; the decomposition is C10's subject)",
           "bounded: rigid diagrams within the model constants (sampled for replay in the quick tier)"]
-CONST = {"quick": {"inv": (2, 3), "dump": (2, 3), "replay": 1500}, "thorough": {"inv": (2, 3), "dump": (3, 3), "replay": 60000}}
+CONST = {"quick": {"inv": (2, 3), "dump": (2, 3), "replay": 1500}, "thorough": {"inv": (2, 3), "dump": (3, 3), "replay": 12000}}
 OBMENU = [[], [[3, 0]], [[3, 0], [4, 0]], [[4, 0], [3, 0]], [[4, -1], [3, 1]]]
 SIG = {1: ([[1, 0]], [[2, 0]]), 2: ([[2, 0]], [[1, 0], [1, 0]]), 3: ([[1, 0], [2, 0]], [[1, 0]]),
        4: ([], [[1, 0]]), 5: ([[1, 1]], [[1, 1]])}
